@@ -114,6 +114,7 @@ type thread struct {
 	// scheduler goes on with the other threads; the detached one runs for real
 	// alongside them and rejoins when its next message arrives.
 	detached   bool
+	spin       int                 // consecutive atomic operations on one object (a spin loop)
 	condTicket int                 // > 0: position in a Cond's wait queue (arrival order)
 	condObj    int                 // the Cond it waits on
 	condWoken  bool                // a Signal/Broadcast has selected it
@@ -689,6 +690,13 @@ func (s *Sim) drain() {
 func (s *Sim) handle(t *thread, kind int, obj uintptr, a, b int64) {
 	tid := t.id
 	ev := Event{Step: s.step, Tid: tid, Kind: kind, Obj: s.objID(obj), A: a, B: b, Grant: -1}
+	// A thread that keeps coming back to an atomic operation on the same
+	// object without doing anything else in between is spinning on it.
+	if kind == simsync.KAtomic && t.pending.Kind == simsync.KAtomic && t.pending.Obj == ev.Obj {
+		t.spin++
+	} else {
+		t.spin = 0
+	}
 	switch kind {
 	case simsync.KUnlock:
 		l := s.lock(ev.Obj)
@@ -817,7 +825,7 @@ func Run(ch chooser.Chooser, cfg Config, bodies []func(tid int)) *Result {
 		}
 		t.pending, t.pendingIdx, t.parked, t.done, t.panicVal, t.stack = Event{}, 0, false, false, nil, ""
 		t.condTicket, t.condObj, t.condWoken = 0, 0, false
-		t.detached = false
+		t.detached, t.spin = false, 0
 		s.threads = append(s.threads, t)
 		t.job.Store(&job{sim: s, run: s.run, body: body}) // release
 		s.resume(t, false, 0)
@@ -964,6 +972,19 @@ var Tainted int
 
 // pick chooses the next thread to resume.
 func (s *Sim) pick(runnable []*thread, last *thread) *thread {
+	// Fairness towards whoever a spinner is waiting for: a thread in a spin
+	// loop is only chosen when nobody else can run.
+	if len(runnable) > 1 {
+		var others []*thread
+		for _, t := range runnable {
+			if t.spin < 3 {
+				others = append(others, t)
+			}
+		}
+		if len(others) > 0 && len(others) < len(runnable) {
+			runnable = others
+		}
+	}
 	if len(runnable) == 1 {
 		return runnable[0]
 	}
